@@ -1385,7 +1385,7 @@ TARGETS += [
 # iterator pipeline -- is outside the subset: it is the hand-written small-step model IW/Core.lean, tied by traces)
 TARGETS.append(T("Iter", "iter/implementors/iter.rs", r"impl<T: Send \+ Sync, Iter> ConIterOfIter", ["progress_yielded_counter", "mark_completed"], "IterSelf"))
 TARGETS.append(T("Iter", "iter/implementors/iter.rs", r"AtomicIter<T> for ConIterOfIter", ["counter", "early_exit"], "IterSelf"))
-TARGETS.append(T("Iter", "iter/implementors/iter.rs", r"ConcurrentIter for ConIterOfIter", ["try_get_len", "skip_to_end"], "IterSelf"))
+TARGETS.append(T("Iter", "iter/implementors/iter.rs", r"ConcurrentIter for ConIterOfIter", ["try_get_len", "into_seq_iter", "skip_to_end"], "IterSelf"))
 
 # cloned() / copied() over the slice iterator (vecref / arrref are slice iterators too)
 for (A, f, bf, big) in (("Cloned", "iter/cloned.rs", "iter/buffered/cloned_buffered_chunk.rs", "ClonedBufferedChunk"),
